@@ -453,7 +453,9 @@ func main() {
 			run.Violation("stores.provision-failed", err.Error(), nil)
 		} else {
 			locs := append([]string(nil), hostilePaths()...)
-			locs = append(locs, "/case.crl", "/CASE.crl", "/q.crl?a=1", "/q.crl?a=2", "/plain.crl/")
+			locs = append(locs, "/case.crl", "/CASE.crl", "/q.crl?a=1", "/q.crl?a=2", "/plain.crl/",
+				// an encoded separator is data, not a separator: these are two locations
+				"/crl/ca%2Fsub.crl", "/crl/ca/sub.crl", "/crl%2Fflat.crl", "/crl/flat.crl")
 			distinct := map[string]bool{}
 			var chains [][]*x509.Certificate
 			for _, p := range locs {
